@@ -150,6 +150,10 @@ def run(module, tier, replay_path=None):
     # every work unit runs in a freshly forked process (maxtasksperchild=1, chunksize=1): state that the
     # implementation keeps across calls (module-level caches, mutable defaults) can then only come from
     # the unit's own history, which makes every failure reproducible from its unit alone
+    # VERIF_FAILFAST=1 (used only when seeded changes are re-verified): stop exploring after the first work unit with a
+    # failure that is not a known finding; the evidence then says exhaustive=False
+    failfast = os.environ.get("VERIF_FAILFAST") == "1"
+    stopped_early = False
     ctx = mp.get_context("fork")
     pool = ctx.Pool(workers, maxtasksperchild=1)
     it = pool.imap(_worker, units, chunksize=1)
@@ -165,9 +169,15 @@ def run(module, tier, replay_path=None):
             fails.extend(res.get("fails", []))
             if len(samples) < 6:
                 samples.extend(res.get("samples", [])[: 6 - len(samples)])
+            if failfast and res.get("fails") and findings.split(pid, res["fails"])[1]:
+                stopped_early = True
+                break
     finally:
         if pool is not None:
-            pool.close()
+            if stopped_early:
+                pool.terminate()
+            else:
+                pool.close()
             pool.join()
     # ---- triage -------------------------------------------------------------------------
     known, unknown = findings.split(pid, fails)
@@ -212,7 +222,7 @@ def run(module, tier, replay_path=None):
         distinct_nontrivial=agg["nontrivial"],
         rule=module.RULE,
         samples=jsonable(samples[:6]),
-        exhaustive=True,
+        exhaustive=not stopped_early,
         work_units=n_units,
         outcome_classes=dict(sorted(outcomes.items())),
         distinct_outcome_classes=len(outcomes),
